@@ -222,8 +222,11 @@ impl PathWorker for RunWithInferredLang {
     let items = filter_file_pattern(path, lang, Some(&matcher), &sub_matchers)?;
     let mut ret = Vec::with_capacity(items.len());
     let rewrite_str = self.arg.rewrite.as_ref();
+    // the rewrites of all documents of one file (host + injected languages) are handed over
+    // together: --update-all splices every payload into the same old text and writes the file
+    let mut all_diffs = vec![];
 
-    for unit in items {
+    for unit in &items {
       let i_lang = unit.grep.lang();
       let rewrite = rewrite_str
         .map(|s| Fixer::from_str(s, i_lang))
@@ -233,10 +236,19 @@ impl PathWorker for RunWithInferredLang {
           eprintln!("╰▻ {e}");
           None
         });
-      let Some(processed) = match_one_file(processor, &unit, &rewrite)? else {
+      if let Some(rewrite) = &rewrite {
+        let matches = unit.grep.root().find_all(&unit.matcher);
+        all_diffs.extend(matches.map(|m| Diff::generate(m, &unit.matcher, rewrite)));
+        continue;
+      }
+      let Some(processed) = match_one_file(processor, unit, &rewrite)? else {
         continue;
       };
       ret.push(processed);
+    }
+    if !all_diffs.is_empty() {
+      all_diffs.sort_by_key(|diff| diff.range.start);
+      ret.insert(0, processor.print_diffs(all_diffs, path)?);
     }
     Ok(ret)
   }
